@@ -264,7 +264,10 @@ pub fn run_check(prop: &str, tier: &str) -> i32 {
             schedprops::run_programs(progs, bound, 4000, budget * 0.8, &schedprops::judge_linearizable, None, &["C18"], &mut report);
             // every call of deep sequential histories on (nearly) full devices, under the call watchdog
             let small: Vec<Suite> = suites::partition_suites(thorough).into_iter().filter(|s| s.name.starts_with("part-small")).map(|mut s| { s.log_io = false; s }).collect();
-            seq_check(prop, tier, small, &["C18"], budget * 0.2, &mut report);
+            seq_check(prop, tier, small, &["C18"], budget * 0.15, &mut report);
+            // the read cache takes its bucket locks itself: every cache call of the narrow-band histories
+            // (growth in place past the high mark) runs under the call watchdog as well
+            c16::run_fsm_narrow(tier, budget * 0.05, &mut report);
             report.set("explanation", "termination oracle: an execution must end with every thread finished within the decision horizon; 'no enabled thread' is a deadlock, the horizon a livelock; contention programs cover concurrent flush callers, flush vs periodic tick, full device, reader held inside a read");
         }
         "C09" => {
